@@ -10,10 +10,12 @@ import (
 	"os/exec"
 	"path/filepath"
 	"runtime"
+	"runtime/pprof"
 	"sort"
 	"strconv"
 	"strings"
 	"sync"
+	"syscall"
 	"time"
 )
 
@@ -58,6 +60,7 @@ type Run struct {
 	shard, nsh  int
 	deadline    time.Time
 	finished    bool
+	seq         int
 }
 
 func envOr(k, d string) string {
@@ -203,6 +206,34 @@ func (r *Run) Mine(i int) bool {
 	return i%r.nsh == r.shard
 }
 
+// Next hands out work-item indices 0,1,2,... dynamically: in worker processes through a counter file shared by all
+// workers of the run (so that a few expensive items do not leave the other processes idle), sequentially
+// otherwise. Use either Mine or Next in a harness, not both.
+func (r *Run) Next() int {
+	if !r.worker || os.Getenv("VERIF_CLAIM") == "" {
+		r.mu.Lock()
+		defer r.mu.Unlock()
+		r.seq++
+		return r.seq - 1
+	}
+	f, err := os.OpenFile(os.Getenv("VERIF_CLAIM"), os.O_RDWR|os.O_CREATE, 0644)
+	if err != nil {
+		fmt.Fprintln(os.Stderr, "INTERNAL: claim file:", err)
+		os.Exit(2)
+	}
+	defer f.Close()
+	if err := syscall.Flock(int(f.Fd()), syscall.LOCK_EX); err != nil {
+		fmt.Fprintln(os.Stderr, "INTERNAL: claim lock:", err)
+		os.Exit(2)
+	}
+	defer syscall.Flock(int(f.Fd()), syscall.LOCK_UN)
+	b := make([]byte, 32)
+	n, _ := f.ReadAt(b, 0)
+	cur, _ := strconv.Atoi(strings.TrimSpace(string(b[:n])))
+	f.WriteAt([]byte(fmt.Sprintf("%-31d\n", cur+1)), 0)
+	return cur
+}
+
 // Parallel runs body in n worker subprocesses of the same test binary (same -test.run), each seeing
 // Mine(i) for its share, and merges what they recorded. In a worker it just runs body.
 func (r *Run) Parallel(n int, testName string, body func()) {
@@ -227,10 +258,13 @@ func (r *Run) Parallel(n int, testName string, body func()) {
 			defer wg.Done()
 			pf := filepath.Join(dir, fmt.Sprintf("part%d.json", i))
 			cmd := exec.Command(os.Args[0], "-test.run", "^"+testName+"$", "-test.timeout", "0")
-			cmd.Env = append(os.Environ(), fmt.Sprintf("VERIF_WORKER=%d/%d", i, n), "VERIF_PARTIAL="+pf, "GOMAXPROCS=2",
+			cmd.Env = append(os.Environ(), fmt.Sprintf("VERIF_WORKER=%d/%d", i, n), "VERIF_PARTIAL="+pf, "VERIF_CLAIM="+filepath.Join(dir, "claim"), "GOMAXPROCS=2",
 				fmt.Sprintf("VERIF_BUDGET_S=%d", int(time.Until(r.deadline).Seconds())))
 			out, err := cmd.CombinedOutput()
 			outs[i] = string(out)
+			if os.Getenv("VERIF_DEBUG") != "" {
+				os.Stderr.Write(out)
+			}
 			if err != nil {
 				errs[i] = fmt.Errorf("worker %d: %v", i, err)
 				return
@@ -347,6 +381,7 @@ func (r *Run) Finish() {
 		return
 	}
 	r.finished = true
+	pprof.StopCPUProfile() // flush -test.cpuprofile (the process leaves through os.Exit)
 	if r.worker {
 		p := partial{Evaluations: r.evaluations, Samples: r.samples, Failures: r.failures, FailCounts: r.failCounts, Counters: r.counters, NotExh: r.notExh}
 		for h := range r.distinct {
